@@ -296,7 +296,15 @@ class Request(Message):
             if idx < 0 and not done:
                 self.get_data(unreader, buf)
                 data = buf.getvalue()
-                if len(data) > self.max_buffer_headers:
+                # only the header block counts, not body bytes read along with it
+                idx = data.find(b"\r\n\r\n")
+                if data[:2] == b"\r\n":
+                    head_len = 2
+                elif idx >= 0:
+                    head_len = idx + 4
+                else:
+                    head_len = len(data)
+                if head_len > self.max_buffer_headers:
                     raise LimitRequestHeaders("max buffer headers")
             else:
                 break
